@@ -65,6 +65,7 @@ def continuity [FloorRing K] (b : Basis K) (tol : K) (knot : K) : PyM (Option In
 def knotSpans (b : Basis K) (tol : K) (ghost : Bool) : Array K :=
   let p := b.order
   let ks : List K := if ghost then b.knots.toList
+                     else if p = 1 then []   -- python: knots[0:-0] is empty
                      else (b.knots.extract (p - 1) (b.knots.size - p + 1)).toList
   let first : K := if ghost then b.kn 0 else b.kn (p - 1)
   (ks.foldl (fun (acc : Array K) k => if |k - acc.getD (acc.size - 1) 0| > tol then acc.push k else acc) #[first])
@@ -90,8 +91,12 @@ def insertKnot [FloorRing K] (b : Basis K) (x0 : K) : PyM (Basis K × Mat K) :=
     let n := b.numFunctions
     let p := b.order
     let size := b.knots.size
-    -- the middle loop reads knots[i+p] for i < mu: out of bounds iff mu - 1 + p ≥ size (and mu ≥ 1, p ≥ 1)
-    if mu - p < mu ∧ mu - 1 + p ≥ size then .error .index
+    -- the middle loop (non-empty iff mu ≥ 1, p ≥ 1) reads, in its last pass i = mu-1, knots[i+p-1]
+    -- always and knots[i+p] only when the short-circuit `and`/`else` reaches it:
+    --   knots[i+p-1] <= x (then `x <= knots[i+p]` is evaluated), or the second guard
+    --   `knots[i] <= x <= knots[i+1]` fails (its else branch reads knots[i+p]).
+    if mu - p < mu ∧ (mu + p ≥ size + 2 ∨
+        (mu + p = size + 1 ∧ (b.kn (size - 1) ≤ x ∨ ¬ (b.kn (mu - 1) ≤ x ∧ x ≤ b.kn mu)))) then .error .index
     else if n = 0 then .error .zeroDiv
     else
       let C0 : Array (Array K) := Array.replicate (n + 1) (Array.replicate n 0)
